@@ -6,3 +6,4 @@ import OlVerif.Props.C12
 #print axioms OlVerif.C12.class_shape
 #print axioms OlVerif.C12.member_store_load
 #print axioms OlVerif.C12.metaclass_keyword
+#print axioms OlVerif.C12.inner_scope_skips_class
